@@ -20,6 +20,7 @@ import (
 	"os/exec"
 	"path/filepath"
 	"runtime"
+	"sort"
 	"strconv"
 	"strings"
 	"sync"
@@ -38,20 +39,27 @@ func init() {
 // ---------- harness-owned stream ----------
 
 type hstream struct {
-	mu      sync.Mutex
-	cond    *sync.Cond
-	buf     []byte
-	err     error // returned by Read once buf is empty
-	idle    bool  // a Read is blocked on an empty buffer: the endpoint is waiting for the next frame
-	writes  [][]byte
-	closes  int
-	yield   bool // Write yields to other goroutines before recording (C10)
-	onWrite func()
+	mu       sync.Mutex
+	cond     *sync.Cond
+	buf      []byte
+	err      error    // returned by Read once buf is empty
+	idle     bool     // a Read is blocked on an empty buffer: the endpoint is waiting for the next frame
+	writes   [][]byte // bytes handed to Write, frame by frame (also when the call failed)
+	wire     []byte   // bytes the stream accepted (what a peer would have received)
+	wmode    int      // write fault in force (wm* constants)
+	wfaults  int      // Write calls that returned an error or made no progress
+	blockedW int      // Write calls blocked right now (wmBlock)
+	wcond    *sync.Cond
+	cerr     error // returned by Close
+	closes   int
+	yield    bool // Write yields to other goroutines before recording (C10)
+	onWrite  func()
 }
 
 func newHStream() *hstream {
 	s := &hstream{}
 	s.cond = sync.NewCond(&s.mu)
+	s.wcond = sync.NewCond(&s.mu)
 	return s
 }
 
@@ -72,18 +80,84 @@ func (s *hstream) Read(p []byte) (int, error) {
 	return n, nil
 }
 
+// write faults of the harness-owned stream (what a Write call answers)
+const (
+	wmOK         = iota // (len(p), nil)
+	wmClosedPipe        // (0, io.ErrClosedPipe): the peer is gone
+	wmPartial           // (7, error): the connection broke in the middle of the frame
+	wmEOF               // (0, io.EOF)
+	wmNoProgress        // (0, nil)
+	wmChunked           // (min(5, len(p)), nil): healthy, but the frame leaves in pieces
+	wmFullEOF           // (len(p), io.EOF): everything written, then the peer closed
+	wmBlock             // the peer does not read: Write blocks until the stream is closed, then (and afterwards) (0, io.ErrClosedPipe)
+	wmCount
+)
+
+var wmNames = []string{"ok", "closed-pipe", "partial", "eof", "no-progress", "chunked", "full-then-eof", "blocks-until-close"}
+
+const wmPartialLen = 7
+const wmChunkLen = 5
+
 func (s *hstream) Write(p []byte) (int, error) {
 	s.mu.Lock()
-	s.writes = append(s.writes, append([]byte(nil), p...))
+	defer s.mu.Unlock()
+	if s.wmode == wmBlock && s.closes == 0 {
+		s.blockedW++
+		s.cond.Broadcast()
+		for s.wmode == wmBlock && s.closes == 0 {
+			s.wcond.Wait()
+		}
+		s.blockedW--
+	}
+	n, err := len(p), error(nil)
+	switch s.wmode {
+	case wmClosedPipe, wmBlock:
+		n, err = 0, io.ErrClosedPipe
+	case wmPartial:
+		if n > wmPartialLen {
+			n = wmPartialLen
+		}
+		err = errors.New("harness: connection reset by peer")
+	case wmEOF:
+		n, err = 0, io.EOF
+	case wmNoProgress:
+		n = 0
+	case wmChunked:
+		if n > wmChunkLen {
+			n = wmChunkLen
+		}
+	case wmFullEOF:
+		err = io.EOF
+	}
+	s.wire = append(s.wire, p[:n]...)
+	if err != nil && s.wmode != wmFullEOF || n == 0 {
+		// the call that ends the frame: record everything the endpoint wanted to send
+		s.writes = append(s.writes, append([]byte(nil), p...))
+		s.wfaults++
+	} else {
+		s.writes = append(s.writes, append([]byte(nil), p[:n]...))
+	}
+	return n, err
+}
+
+func (s *hstream) setWriteMode(m int) {
+	s.mu.Lock()
+	s.wmode = m
+	s.wcond.Broadcast()
 	s.mu.Unlock()
-	return len(p), nil
+}
+func (s *hstream) setCloseErr(err error) {
+	s.mu.Lock()
+	s.cerr = err
+	s.mu.Unlock()
 }
 
 func (s *hstream) Close() error {
 	s.mu.Lock()
+	defer s.mu.Unlock()
 	s.closes++
-	s.mu.Unlock()
-	return nil
+	s.wcond.Broadcast()
+	return s.cerr
 }
 func (s *hstream) String() string           { return "harness://stream" }
 func (s *hstream) Context() context.Context { return context.TODO() }
@@ -117,10 +191,59 @@ func (s *hstream) waitIdle(d time.Duration) bool {
 	}
 	return true
 }
-func (s *hstream) snapshot() (w [][]byte, closes int) {
+
+// waitQuiet: like waitIdle, but also returns when a Write of the endpoint is blocked (blocked == true).
+// stop (may be nil) ends the wait when it is closed or receives.
+func (s *hstream) waitQuiet(d time.Duration, needIdle bool, stop <-chan struct{}) (blocked bool, ok bool) {
+	timedOut, stopped := false, false
+	t := time.AfterFunc(d, func() { s.mu.Lock(); timedOut = true; s.cond.Broadcast(); s.mu.Unlock() })
+	defer t.Stop()
+	quit := make(chan struct{})
+	defer close(quit)
+	if stop != nil {
+		go func() {
+			select {
+			case <-stop:
+				s.mu.Lock()
+				stopped = true
+				s.cond.Broadcast()
+				s.mu.Unlock()
+			case <-quit:
+			}
+		}()
+	}
 	s.mu.Lock()
 	defer s.mu.Unlock()
-	return append([][]byte(nil), s.writes...), s.closes
+	for {
+		if s.blockedW > 0 {
+			return true, true
+		}
+		if needIdle && s.idle && len(s.buf) == 0 {
+			return false, true
+		}
+		if stopped {
+			return false, true
+		}
+		if timedOut {
+			return false, false
+		}
+		s.cond.Wait()
+	}
+}
+func (s *hstream) snapshot() (w [][]byte, wire []byte, closes int) {
+	s.mu.Lock()
+	defer s.mu.Unlock()
+	return append([][]byte(nil), s.writes...), append([]byte(nil), s.wire...), s.closes
+}
+func (s *hstream) writesSnapshot() [][]byte {
+	s.mu.Lock()
+	defer s.mu.Unlock()
+	return s.writes
+}
+func (s *hstream) faults() int {
+	s.mu.Lock()
+	defer s.mu.Unlock()
+	return s.wfaults
 }
 
 // ---------- scripts ----------
@@ -192,7 +315,19 @@ const (
 	opRelease
 	opRecv
 	opReleaseLowest // release the held handler with the lowest creation index
+	opFault         // the stream changes behaviour: Mode = write fault (wm*), CloseErr = Close() answers an error
 )
+
+// how the read side ends (opPeerClose.Var)
+const (
+	pcEOF       = iota // Read answers io.EOF
+	pcReset            // Read answers another error
+	pcTruncated        // half a header, then io.EOF
+	pcBadMagic         // a complete header with a wrong magic number (the stream stays readable)
+	pcCount
+)
+
+var pcNames = []string{"eof", "reset", "truncated-frame", "bad-magic"}
 
 type sop struct {
 	Kind  int
@@ -204,6 +339,9 @@ type sop struct {
 	M     mspec // msg
 	Holds []int // close/peerclose: handlers (creation index) whose closer is held
 	H     int   // release/recv: creation index
+	Var   int   // peerclose: pc* constant
+	Mode  int   // fault: wm* constant
+	CErr  bool  // fault: stream.Close() returns an error from now on
 }
 
 func (o sop) String() string {
@@ -221,7 +359,16 @@ func (o sop) String() string {
 	case opClose:
 		return fmt.Sprintf("Close(hold=%v)", o.Holds)
 	case opPeerClose:
+		if o.Var != pcEOF {
+			return fmt.Sprintf("PeerClose(%s hold=%v)", pcNames[o.Var%pcCount], o.Holds)
+		}
 		return fmt.Sprintf("PeerClose(hold=%v)", o.Holds)
+	case opFault:
+		s := "StreamFault(write=" + wmNames[o.Mode%wmCount]
+		if o.CErr {
+			s += " close=error"
+		}
+		return s + ")"
 	case opRelease:
 		return fmt.Sprintf("Release(h%d)", o.H)
 	case opRecv:
@@ -366,6 +513,7 @@ type caseObs struct {
 	End        int      `json:"end"`
 	Hs         []string `json:"hs"` // Gallina hobs terms
 	Sent       []string `json:"sent"`
+	Wire       string   `json:"wire"` // bytes the stream accepted
 	SClose     int      `json:"sclose"`
 	Fails      []string `json:"fails"`
 	Contract   bool     `json:"contract"` // no re-entering callback in the c17script
@@ -374,9 +522,33 @@ type caseObs struct {
 	Dist       []string `json:"dist"`
 }
 
-const opTimeout = 3 * time.Second
+// deadline of one operation.  A child that has already reported several operations that never
+// returned (only a broken tree gets there) waits less for the following ones.
+var opTimeout = 3 * time.Second
+
+const hangsBeforeShortDeadline = 6
+
+var hangsSeen int
+
+func noteHang() {
+	hangsSeen++
+	if hangsSeen == hangsBeforeShortDeadline {
+		opTimeout = 750 * time.Millisecond
+	}
+}
+
+// a dispatch that has not returned: it waits in the stream's Write (wmBlock)
+type pendingMsg struct {
+	o                sop
+	before           map[*hh]int
+	done             chan struct{} // direct mode: closed when dispatch returned
+	res              string        // direct mode: "" or "panic: ..."
+	d                int           // direct mode: class of the value dispatch returned
+	wBefore, fBefore int
+}
 
 type runner17 struct {
+	pending  *pendingMsg
 	e        net.EndPoint
 	dispatch func(*net.Message) error
 	process  func()
@@ -386,6 +558,8 @@ type runner17 struct {
 	live     map[int]*hh // mirror of the table: id -> handler
 	obs      *caseObs
 	stream   bool
+	wmode    int  // write fault in force
+	cerr     bool // stream.Close() answers an error
 }
 
 // call runs f with a deadline and recovers a panic raised on its goroutine.
@@ -479,6 +653,7 @@ func runScript(idx int, sc c17script) *caseObs {
 		if res == "hang" {
 			obs.End = 2
 			if obs.Contract {
+				noteHang()
 				r.fail("%s never returned (deadlock)", what)
 			}
 		} else {
@@ -496,6 +671,7 @@ func runScript(idx int, sc c17script) *caseObs {
 					case <-h.entered:
 					case <-time.After(opTimeout):
 						obs.End = 2
+						noteHang()
 						r.fail("the close callback of handler h%d was not invoked within %v of the shutdown", h.idx, opTimeout)
 						return false
 					}
@@ -506,6 +682,7 @@ func runScript(idx int, sc c17script) *caseObs {
 			ok := waitUntil(opTimeout, func() bool { h.mu.Lock(); defer h.mu.Unlock(); return h.pull() })
 			if !ok {
 				obs.End = 2
+				noteHang()
 				r.fail("the queue of handler h%d was not closed within %v of the shutdown", h.idx, opTimeout)
 				return false
 			}
@@ -533,12 +710,140 @@ func runScript(idx int, sc c17script) *caseObs {
 		return out
 	}
 	procExited := false
+	paths := map[string]bool{}
+	tableLen := 10 // mirror of len(e.handlers)
+	// probe: whatever path the previous operation took through the endpoint, the next operation that
+	// needs the handler table must complete.  RemoveHandler(-1) is such an operation and changes nothing.
+	probe := func(after string) bool {
+		if !obs.Contract || obs.End != 0 {
+			return true
+		}
+		var err error
+		res := call(func() { err = r.e.RemoveHandler(-1) })
+		if res == "hang" {
+			obs.End = 2
+			noteHang()
+			r.fail("after %s returned, RemoveHandler(-1) never returned: the handler table stays locked (deadlock); stream write fault in force: %s", after, wmNames[r.wmode])
+			return false
+		}
+		if res != "" {
+			obs.End = 1
+			r.fail("after %s returned, RemoveHandler(-1): %s", after, res)
+			return false
+		}
+		if err == nil {
+			r.fail("after %s returned, RemoveHandler(-1) returned nil", after)
+		}
+		return true
+	}
+	// finishMsg: the dispatch of pm.o has returned (res == "") — record it and check what it did to the handlers
+	finishMsg := func(pm *pendingMsg, res string) bool {
+		o := pm.o
+		d := 9
+		if res == "" {
+			d = pm.d
+		}
+		emit(fmt.Sprintf("OMsg %s %d%%N", o.M.term(), d))
+		if ended(res, o.String()) {
+			return false
+		}
+		if !sc.Stream {
+			paths["dispatch:returns-"+[]string{"nil", "no-match", "consumer-blocked", "no-handler", "", "", "", "", "other-error"}[d]] = true
+		}
+		if len(r.st.writesSnapshot()) > pm.wBefore {
+			if r.st.faults() > pm.fBefore {
+				paths["dispatch:blocked-call-reply-write-fails:"+wmNames[r.wmode]] = true
+			} else {
+				paths["dispatch:blocked-call-reply-written:"+wmNames[r.wmode]] = true
+			}
+		}
+		for id, h := range r.live {
+			h.mu.Lock()
+			n := h.consults - pm.before[h]
+			if n != 1 {
+				h.bad = append(h.bad, fmt.Sprintf("filter consulted %d times for message id %d while registered", n, o.M.ID))
+			}
+			// what did the filter answer for this message?
+			var ans bb
+			k := h.consults - 1
+			if h.f.Kind == 0 {
+				ans = bb{false, true}
+				if int(o.M.Action) < len(h.f.Tab) {
+					ans = h.f.Tab[o.M.Action]
+				}
+			} else if k < h.f.K {
+				ans = h.f.A
+			} else {
+				ans = h.f.B
+			}
+			if n >= 1 && !ans.K {
+				// self-removal: closed under the table's lock, before dispatch returned
+				closed := h.pull()
+				cc := int(atomic.LoadInt32(&h.closerCalls))
+				want := 0
+				if h.cl != 0 {
+					want = 1
+				}
+				if cc != want || !closed {
+					h.bad = append(h.bad, fmt.Sprintf("after its filter answered keep=false for message id %d: %d close callback calls (want %d), queue closed = %v", o.M.ID, cc, want, closed))
+				}
+				delete(r.live, id)
+				paths["dispatch:keep-false-closes"] = true
+			}
+			h.mu.Unlock()
+		}
+		return true
+	}
+	// awaitPending: the blocked Write has been released; wait for that dispatch to return
+	awaitPending := func(pm *pendingMsg) string {
+		if sc.Stream {
+			if !r.st.waitIdle(opTimeout) {
+				return "hang"
+			}
+			return ""
+		}
+		select {
+		case <-pm.done:
+			return pm.res
+		case <-time.After(opTimeout):
+			return "hang"
+		}
+	}
+	// resumePeer: the peer reads again — the blocked Write (and the following ones) succeed
+	resumePeer := func() bool {
+		pm := r.pending
+		r.pending = nil
+		r.wmode = wmOK
+		r.st.setWriteMode(wmOK)
+		emit("OFault 0%N")
+		res := awaitPending(pm)
+		paths["dispatch:blocked-call-reply-write-blocked:then-peer-reads"] = true
+		return finishMsg(pm, res)
+	}
+	lastOp := ""
 loop:
 	for _, o := range sc.Ops {
+		if r.pending != nil && !(o.Kind == opClose || o.Kind == opPeerClose && !sc.Stream) {
+			if !resumePeer() {
+				break loop
+			}
+		}
+		if r.pending == nil && lastOp != "" && !probe(lastOp) {
+			break loop
+		}
+		lastOp = o.String()
 		if len(r.live) > maxLive {
 			maxLive = len(r.live)
 		}
 		switch o.Kind {
+		case opFault:
+			r.wmode = o.Mode % wmCount
+			r.st.setWriteMode(r.wmode)
+			if o.CErr {
+				r.cerr = true
+				r.st.setCloseErr(errors.New("harness: close of a broken connection"))
+			}
+			emit(fmt.Sprintf("OFault %d%%N", r.wmode))
 		case opMake:
 			h := &hh{idx: len(r.hs), f: o.F, fre: o.Fre, cl: o.Cl, capq: o.Cap, q: make(chan *net.Message, o.Cap),
 				entered: make(chan struct{}), gate: make(chan struct{}), e: r.e}
@@ -560,6 +865,12 @@ loop:
 				r.fail("MakeHandler returned id %d while handler h%d registered under that id has not been removed", id, other.idx)
 			}
 			r.live[id] = h
+			if id >= tableLen {
+				tableLen = id + 1
+				paths["make:append"] = true
+			} else {
+				paths["make:free-slot"] = true
+			}
 			emit(fmt.Sprintf("OMake (%s) %s %d%%N %d%%N %d%%N", o.F.term(), hx.Bool(o.Fre), o.Cl, o.Cap, id))
 		case opRemove:
 			var err error
@@ -572,6 +883,16 @@ loop:
 			emit(fmt.Sprintf("ORemove (%d)%%Z %s", o.ID, hx.Bool(err == nil)))
 			if ended(res, o.String()) {
 				break loop
+			}
+			switch {
+			case err == nil:
+				paths["remove:ok"] = true
+			case o.ID < 0:
+				paths["remove:negative-id"] = true
+			case o.ID >= tableLen:
+				paths["remove:beyond-table"] = true
+			default:
+				paths["remove:empty-slot"] = true
 			}
 			h, was := r.live[o.ID]
 			if was && err != nil {
@@ -599,67 +920,65 @@ loop:
 				continue // the process loop has returned: nothing reads the stream any more
 			}
 			m := o.M.message()
-			before := map[*hh]int{}
+			pm := &pendingMsg{o: o, before: map[*hh]int{}, d: 9}
 			for _, h := range r.live {
 				h.mu.Lock()
-				before[h] = h.consults
+				pm.before[h] = h.consults
 				h.mu.Unlock()
 			}
-			d := 9
 			var res string
+			pm.wBefore, pm.fBefore = len(r.st.writesSnapshot()), r.st.faults()
+			if len(r.live) == 0 {
+				paths["dispatch:empty-table"] = true
+			}
+			blocked := false
 			if sc.Stream {
 				var wbuf writerBuf
 				m.Write(&wbuf)
 				r.st.feed(wbuf.b)
-				if !r.st.waitIdle(opTimeout) {
+				var ok bool
+				if blocked, ok = r.st.waitQuiet(opTimeout, true, nil); !ok {
 					res = "hang"
 				}
 			} else {
-				var err error
-				res = r.call(func() { err = r.dispatch(&m) })
-				d = dclass(err)
+				pm.done = make(chan struct{})
+				go func() {
+					defer close(pm.done)
+					defer func() {
+						if x := recover(); x != nil {
+							pm.res = fmt.Sprintf("panic: %v", x)
+						}
+					}()
+					pm.d = dclass(r.dispatch(&m))
+				}()
+				d := opTimeout
+				if !obs.Contract {
+					d = 400 * time.Millisecond
+				}
+				var ok bool
+				if blocked, ok = r.st.waitQuiet(d, false, pm.done); !ok {
+					res = "hang"
+				} else if !blocked {
+					<-pm.done
+					res = pm.res
+				}
 			}
-			emit(fmt.Sprintf("OMsg %s %d%%N", o.M.term(), d))
-			if ended(res, o.String()) {
+			if blocked {
+				// dispatch holds the table and waits in the Write of the reply to a Call it could not deliver
+				r.pending = pm
+				continue
+			}
+			if !finishMsg(pm, res) {
 				break loop
-			}
-			for id, h := range r.live {
-				h.mu.Lock()
-				n := h.consults - before[h]
-				if n != 1 {
-					h.bad = append(h.bad, fmt.Sprintf("filter consulted %d times for message id %d while registered", n, o.M.ID))
-				}
-				// what did the filter answer for this message?
-				var ans bb
-				k := h.consults - 1
-				if h.f.Kind == 0 {
-					ans = bb{false, true}
-					if int(o.M.Action) < len(h.f.Tab) {
-						ans = h.f.Tab[o.M.Action]
-					}
-				} else if k < h.f.K {
-					ans = h.f.A
-				} else {
-					ans = h.f.B
-				}
-				if n >= 1 && !ans.K {
-					// self-removal: closed under the table's lock, before dispatch returned
-					closed := h.pull()
-					cc := int(atomic.LoadInt32(&h.closerCalls))
-					want := 0
-					if h.cl != 0 {
-						want = 1
-					}
-					if cc != want || !closed {
-						h.bad = append(h.bad, fmt.Sprintf("after its filter answered keep=false for message id %d: %d close callback calls (want %d), queue closed = %v", o.M.ID, cc, want, closed))
-					}
-					delete(r.live, id)
-				}
-				h.mu.Unlock()
 			}
 		case opClose, opPeerClose:
 			if procExited && o.Kind == opPeerClose {
 				continue
+			}
+			pend := r.pending
+			if pend != nil {
+				// handlers may still be closed by the pending dispatch itself, under the table's lock: hold no closer
+				o.Holds = nil
 			}
 			was := liveInSlotOrder()
 			if len(was) >= 2 {
@@ -679,12 +998,55 @@ loop:
 				h.mu.Unlock()
 			}
 			var res string
+			tbl := "empty-table"
+			if len(was) > 0 {
+				tbl = "occupied-table"
+			}
+			if r.cerr {
+				paths["shutdown:stream-close-fails"] = true
+			}
+			what := o.String()
+			// finishPending: the shutdown closed the stream first, which ends the blocked Write; the dispatch then
+			// finishes under the lock and the shutdown walks the table after it
+			finishPending := func(tag string) bool {
+				if pend == nil {
+					return true
+				}
+				r.pending = nil
+				if res != "" {
+					what += " while the dispatch of " + pend.o.String() + " was blocked in the Write of its reply on a stream whose peer does not read (only stream.Close() ends that Write)"
+					return true
+				}
+				paths["dispatch:blocked-call-reply-write-blocked:"+tag] = true
+				if !finishMsg(pend, awaitPending(pend)) {
+					return false
+				}
+				was = liveInSlotOrder()
+				return true
+			}
 			if o.Kind == opClose {
 				res = call(func() { r.e.Close() })
+				if !finishPending("then-Close") {
+					break loop
+				}
 				emit("OCloseAll false false")
+				paths["shutdown:Close:"+tbl] = true
 			} else {
 				procExited = true
-				r.st.fail(io.EOF)
+				paths["shutdown:read-error:"+pcNames[o.Var%pcCount]+":"+tbl] = true
+				switch o.Var % pcCount {
+				case pcEOF:
+					r.st.fail(io.EOF)
+				case pcReset:
+					r.st.fail(errors.New("harness: connection reset by peer"))
+				case pcTruncated:
+					r.st.feed([]byte{0x42, 0xde, 0xad, 0x42, 1, 0, 0, 0, 0, 0, 0, 0, 0})
+					r.st.fail(io.EOF)
+				case pcBadMagic:
+					bad := make([]byte, 28)
+					copy(bad, []byte{0x42, 0xde, 0xad, 0x43, 1, 0, 0, 0, 0, 0, 0, 0, 0, 0, 1})
+					r.st.feed(bad)
+				}
 				if sc.Stream {
 					select {
 					case <-r.procDone:
@@ -694,9 +1056,12 @@ loop:
 				} else {
 					res = call(r.process)
 				}
+				if !finishPending("then-read-error") {
+					break loop
+				}
 				emit("OCloseAll true true")
 			}
-			if ended(res, o.String()) {
+			if ended(res, what) {
 				break loop
 			}
 			r.live = map[int]*hh{}
@@ -731,6 +1096,7 @@ loop:
 			ok := waitUntil(opTimeout, func() bool { h.mu.Lock(); defer h.mu.Unlock(); return h.pull() })
 			if !ok {
 				obs.End = 2
+				noteHang()
 				r.fail("the queue of handler h%d was not closed within %v of its close callback returning", h.idx, opTimeout)
 				break loop
 			}
@@ -758,6 +1124,12 @@ loop:
 	}
 	if len(r.live) > maxLive {
 		maxLive = len(r.live)
+	}
+	if r.pending != nil && obs.End == 0 {
+		resumePeer()
+	}
+	if lastOp != "" && obs.End == 0 {
+		probe(lastOp)
 	}
 	// final observation
 	for _, h := range r.hs {
@@ -790,6 +1162,7 @@ loop:
 		h.mu.Unlock()
 	}
 	// let held goroutines go
+	r.st.setWriteMode(wmOK)
 	for _, h := range r.hs {
 		h.mu.Lock()
 		if h.held {
@@ -798,11 +1171,20 @@ loop:
 		}
 		h.mu.Unlock()
 	}
-	w, closes := r.st.snapshot()
+	w, wire, closes := r.st.snapshot()
 	for _, f := range w {
 		obs.Sent = append(obs.Sent, hx.Hex(f))
 	}
+	obs.Wire = hx.Hex(wire)
 	obs.SClose = closes
+	if obs.End == 0 && obs.Contract {
+		var ps []string
+		for p := range paths {
+			ps = append(ps, "path:"+p)
+		}
+		sort.Strings(ps)
+		obs.Dist = append(obs.Dist, ps...)
+	}
 	if sc.Stream && !procExited {
 		r.st.fail(errors.New("harness: end of case"))
 	}
@@ -810,6 +1192,13 @@ loop:
 	obs.Dist = append(obs.Dist, "mode:"+map[bool]string{true: "stream", false: "direct"}[sc.Stream], "c17script:"+sc.Name,
 		fmt.Sprintf("maxlive:%d", maxLive), fmt.Sprintf("end:%d", obs.End))
 	return obs
+}
+
+func wireTerm(w string) string {
+	if w == "" {
+		return hx.Hex(nil)
+	}
+	return w
 }
 
 type writerBuf struct{ b []byte }
@@ -864,6 +1253,25 @@ func genScript(rng *hx.Rng, tier string) c17script {
 	shut := false
 	emptyAtPeerClose := false
 	var held []int
+	// a third of the scripts run over a faulty stream: Write fails / makes no progress / is chunked from some
+	// point on, Close answers an error; those scripts favour Calls and queues that are full
+	faulty := rng.Chance(0.34)
+	if faulty {
+		sc.Name = "random-faulty-stream"
+	}
+	genCap := func() int {
+		if faulty {
+			return rng.Pick(0, 0, 0, 1, 1, 2)
+		}
+		return rng.Pick(0, 1, 1, 2, 3)
+	}
+	genF := func() fdesc {
+		if faulty && rng.Chance(0.5) {
+			return fdesc{Kind: 0, Tab: []bb{{true, true}, {true, true}, {true, rng.Chance(0.8)}}}
+		}
+		return genFilter(rng)
+	}
+	pcVar := func() int { return rng.Pick(pcEOF, pcEOF, pcEOF, pcReset, pcTruncated, pcBadMagic) }
 	if rng.Chance(0.08) {
 		sc.Name = "fill-table"
 		k := 9 + rng.Intn(5)
@@ -874,13 +1282,24 @@ func genScript(rng *hx.Rng, tier string) c17script {
 		}
 	}
 	for i := 0; i < n; i++ {
+		if faulty && (rng.Chance(0.18) || i == 1) {
+			f := sop{Kind: opFault, Mode: rng.Pick(wmOK, wmClosedPipe, wmClosedPipe, wmPartial, wmEOF, wmNoProgress, wmChunked, wmFullEOF, wmBlock, wmBlock), CErr: rng.Chance(0.25)}
+			sc.Ops = append(sc.Ops, f)
+			if f.Mode == wmBlock && made > 0 && !shut && rng.Chance(0.6) {
+				// Calls until some queue is full, then straight to a shutdown (or anything else: the peer then reads again)
+				for k := rng.Intn(3) + 1; k > 0; k-- {
+					msgID++
+					sc.Ops = append(sc.Ops, sop{Kind: opMsg, M: mspec{Typ: 1, Service: 1, Object: 1, Action: uint32(rng.Intn(3)), ID: msgID}})
+				}
+			}
+		}
 		x := rng.Intn(100)
 		switch {
 		case x < 26 || made == 0:
 			if emptyAtPeerClose && sc.Stream {
 				continue
 			}
-			sc.Ops = append(sc.Ops, sop{Kind: opMake, F: genFilter(rng), Cl: rng.Pick(0, 1, 1, 1), Cap: rng.Pick(0, 1, 1, 2, 3)})
+			sc.Ops = append(sc.Ops, sop{Kind: opMake, F: genF(), Cl: rng.Pick(0, 1, 1, 1), Cap: genCap()})
 			// the id it will get is not known here; guess the lowest free one
 			ids = append(ids, rng.Intn(made+1))
 			made++
@@ -907,7 +1326,16 @@ func genScript(rng *hx.Rng, tier string) c17script {
 			msgID++
 			m := mspec{Typ: uint32(rng.Pick(1, 1, 1, 2, 3, 4, 5, 7)), Service: uint32(rng.Intn(3)), Object: uint32(rng.Intn(3)),
 				Action: uint32(rng.Pick(0, 1, 2, 2, 3)), ID: msgID, Payload: rng.Bytes(rng.Pick(0, 0, 1, 5))}
+			if faulty && rng.Chance(0.6) {
+				m.Typ = 1
+			}
 			sc.Ops = append(sc.Ops, sop{Kind: opMsg, M: m})
+			if faulty && rng.Chance(0.4) {
+				// the same again: a queue of capacity 1 is full the second time
+				msgID++
+				m.ID = msgID
+				sc.Ops = append(sc.Ops, sop{Kind: opMsg, M: m})
+			}
 		case x < 84:
 			sc.Ops = append(sc.Ops, sop{Kind: opRecv, H: rng.Intn(made)})
 		case x < 91:
@@ -933,7 +1361,7 @@ func genScript(rng *hx.Rng, tier string) c17script {
 				}
 			}
 			held = append(held, holds...)
-			sc.Ops = append(sc.Ops, sop{Kind: opPeerClose, Holds: holds})
+			sc.Ops = append(sc.Ops, sop{Kind: opPeerClose, Holds: holds, Var: pcVar()})
 			shut = true
 			// messages cannot be delivered once the process loop returned
 			for j := i + 1; j < n; j++ {
@@ -998,6 +1426,44 @@ func fixedScripts() []c17script {
 			ev(1, 0), sop{Kind: opRemove, ID: 11}, sop{Kind: opClose}, mk(never, 1, 0))
 		out = append(out, fill)
 	}
+	// faults of the stream while dispatch holds the table: a Call selected by a handler whose queue is full
+	// is answered through the stream; every way the Write can end, then every operation that needs the table
+	fault := func(mode int, cerr bool) sop { return sop{Kind: opFault, Mode: mode, CErr: cerr} }
+	followUps := []struct {
+		name string
+		ops  []sop
+	}{
+		{"remove", []sop{{Kind: opRemove, ID: 0}, {Kind: opRemove, ID: 1}, {Kind: opClose}}},
+		{"make", []sop{mk(never, 1, 0), {Kind: opRemove, ID: 2}, {Kind: opClose}}},
+		{"close", []sop{{Kind: opClose}, {Kind: opRemove, ID: 0}}},
+		{"peer-close", []sop{{Kind: opPeerClose}, {Kind: opRemove, ID: 1}}},
+		{"traffic", []sop{call(3, 1), ev(4, 0), {Kind: opRecv, H: 1}, call(5, 0), {Kind: opPeerClose, Var: pcReset}}},
+	}
+	oneShotCall := fdesc{Kind: 0, Tab: []bb{{true, true}, {true, true}, {true, false}}}
+	for _, stream := range []bool{false, true} {
+		for mode := wmOK + 1; mode < wmCount; mode++ {
+			for _, fu := range followUps {
+				ops := []sop{mk(keepAll, 1, 0), mk(keepAll, 1, 1), fault(mode, false), call(1, 0), call(2, 0)}
+				out = append(out, c17script{"blocked-call-write-" + wmNames[mode] + "-then-" + fu.name, stream, append(ops, fu.ops...)})
+			}
+			// the handler that could not take the Call leaves on that very message (keep == false), the stream
+			// recovers, the slot is reused
+			out = append(out, c17script{"blocked-call-write-" + wmNames[mode] + "-self-removal", stream, []sop{
+				mk(oneShotCall, 1, 0), mk(oneShotCall, 0, 0), mk(keepAll, 1, 1), fault(mode, false), call(1, 2), fault(wmOK, false),
+				mk(keepAll, 1, 0), call(2, 0), {Kind: opRemove, ID: 0}, {Kind: opClose}}})
+		}
+		// stream.Close() answers an error; the read side ends in every way, on an empty and on an occupied table
+		out = append(out,
+			c17script{"close-error-close", stream, []sop{mk(keepAll, 1, 1), mk(never, 0, 0), fault(wmClosedPipe, true), call(1, 0), call(2, 0), {Kind: opClose}, {Kind: opClose}, mk(never, 1, 0), {Kind: opRemove, ID: 0}}},
+			c17script{"close-error-empty-table", stream, []sop{fault(wmOK, true), {Kind: opClose}, {Kind: opRemove, ID: 0}, mk(never, 1, 0), {Kind: opRemove, ID: 0}}},
+		)
+		for v := 0; v < pcCount; v++ {
+			out = append(out,
+				c17script{"read-side-" + pcNames[v] + "-occupied", stream, []sop{mk(keepAll, 1, 0), mk(keepAll, 0, 1), fault(wmPartial, v%2 == 1), call(1, 0), {Kind: opPeerClose, Var: v, Holds: []int{0}}, {Kind: opRemove, ID: 0}, {Kind: opRelease, H: 0}, {Kind: opClose}}},
+				c17script{"read-side-" + pcNames[v] + "-empty", stream, []sop{call(1, 0), {Kind: opPeerClose, Var: v}, {Kind: opRemove, ID: 0}, {Kind: opClose}}},
+			)
+		}
+	}
 	// the documented contract: callbacks must not call back into the endpoint
 	out = append(out,
 		c17script{"reenter-closer-remove", false, []sop{{Kind: opMake, F: keepAll, Cl: 2, Cap: 1}, {Kind: opRemove, ID: 0}}},
@@ -1005,6 +1471,26 @@ func fixedScripts() []c17script {
 		c17script{"reenter-filter", false, []sop{{Kind: opMake, F: keepAll, Fre: true, Cl: 1, Cap: 1}, call(1, 0)}},
 		c17script{"reenter-closer-nonkeep", false, []sop{{Kind: opMake, F: once, Cl: 2, Cap: 1}, ev(1, 0)}},
 	)
+	return out
+}
+
+// requiredPaths17: the path tags (runScript) the fixed scripts reach on a tree that satisfies the property
+func requiredPaths17() []string {
+	out := []string{"make:free-slot", "make:append", "remove:ok", "remove:negative-id", "remove:beyond-table", "remove:empty-slot",
+		"dispatch:empty-table", "dispatch:returns-nil", "dispatch:returns-no-match", "dispatch:returns-consumer-blocked", "dispatch:keep-false-closes",
+		"shutdown:Close:empty-table", "shutdown:Close:occupied-table", "shutdown:stream-close-fails",
+		"dispatch:blocked-call-reply-write-blocked:then-Close", "dispatch:blocked-call-reply-write-blocked:then-read-error",
+		"dispatch:blocked-call-reply-write-blocked:then-peer-reads"}
+	for _, v := range pcNames {
+		out = append(out, "shutdown:read-error:"+v+":empty-table", "shutdown:read-error:"+v+":occupied-table")
+	}
+	for m, n := range wmNames {
+		if m == wmOK || m == wmChunked || m == wmFullEOF {
+			out = append(out, "dispatch:blocked-call-reply-written:"+n)
+		} else {
+			out = append(out, "dispatch:blocked-call-reply-write-fails:"+n)
+		}
+	}
 	return out
 }
 
@@ -1023,6 +1509,7 @@ func exhAlphabet(n int) []sop {
 		{Kind: opReleaseLowest},
 		{Kind: opRemove, ID: 2},
 		{Kind: opPeerClose},
+		{Kind: opFault, Mode: wmClosedPipe},
 	}
 	return all[:n]
 }
@@ -1064,8 +1551,8 @@ func exhScript(n, k int, name string) c17script {
 }
 
 const (
-	exhModelLetters, exhModelLen = 9, 5 // compared with the model in Coq
-	exhDeepLetters, exhDeepLen   = 7, 7 // oracle-only
+	exhModelLetters, exhModelLen = 10, 5 // compared with the model in Coq
+	exhDeepLetters, exhDeepLen   = 7, 7  // oracle-only
 )
 
 func scriptFor(seed uint64, tier string, k int) c17script {
@@ -1110,6 +1597,9 @@ func nCases17(tier string) int {
 // queue, for handlers registered before the shutdown began), callback before close, nothing selected
 // after the callback, received = selected-while-room, RemoveHandler of a registered keep-always
 // handler succeeds and closes it before returning.
+var stressDeadline = 20 * time.Second
+var stressHangs int
+
 func stressRound(seed uint64, round int) (fails []string, stats map[string]int) {
 	rng := hx.NewRng(hx.NewRng(seed).U64() ^ (uint64(round+1) * 0xA24BAED4963EE407))
 	stats = map[string]int{}
@@ -1124,6 +1614,19 @@ func stressRound(seed uint64, round int) (fails []string, stats map[string]int) 
 	nMsgs := 50 + rng.Intn(300)
 	peerClose := rng.Chance(0.4)
 	shutAfter := rng.Intn(nMsgs + 1)
+	// half of the rounds: from some message on the stream's Write fails (or is chunked), Close answers an error
+	faultAt, faultMode := -1, wmOK
+	if rng.Chance(0.5) {
+		faultAt = rng.Intn(shutAfter + 1)
+		faultMode = rng.Pick(wmClosedPipe, wmClosedPipe, wmPartial, wmEOF, wmNoProgress, wmChunked, wmFullEOF, wmBlock)
+		if faultMode == wmBlock && peerClose {
+			// a process goroutine blocked in Write never sees the read error: only Close() ends such a round
+			faultMode = wmClosedPipe
+		}
+		if rng.Chance(0.3) {
+			st.setCloseErr(errors.New("harness: close of a broken connection"))
+		}
+	}
 	var wg sync.WaitGroup
 	madeTickets := map[*hh]int64{}
 	fail := func(format string, a ...interface{}) {
@@ -1194,6 +1697,9 @@ func stressRound(seed uint64, round int) (fails []string, stats map[string]int) 
 		defer wg.Done()
 		fr := hx.NewRng(rng.U64())
 		for i := 0; i < nMsgs; i++ {
+			if i == faultAt {
+				st.setWriteMode(faultMode)
+			}
 			if i == shutAfter {
 				atomic.CompareAndSwapInt64(&shutdownStart, 0, atomic.AddInt64(&seq, 1))
 				if peerClose {
@@ -1226,9 +1732,14 @@ func stressRound(seed uint64, round int) (fails []string, stats map[string]int) 
 	go func() { wg.Wait(); close(donec) }()
 	select {
 	case <-donec:
-	case <-time.After(20 * time.Second):
-		return []string{fmt.Sprintf("stress round %d: workers did not finish within 20 s (deadlock)", round)}, stats
+	case <-time.After(stressDeadline):
+		d := stressDeadline
+		stressDeadline = 4 * time.Second // only a broken tree gets here: do not wait as long for the next rounds
+		stressHangs++
+		return []string{fmt.Sprintf("stress round %d: workers (MakeHandler/RemoveHandler), traffic and shutdown did not finish within %v (deadlock); stream write fault from message %d on: %s, %d faulty writes so far",
+			round, d, faultAt, wmNames[faultMode], st.faults())}, stats
 	}
+	stats["faulty-writes"] += st.faults()
 	start := atomic.LoadInt64(&shutdownStart)
 	mu.Lock()
 	hs := append([]*hh(nil), all...)
@@ -1381,6 +1892,9 @@ func childC17(res *hx.Result, rng *hx.Rng, tier string, outdir string) {
 			fails, stats := stressRound(res.Seed, k)
 			b, _ = json.Marshal(map[string]interface{}{"round": k, "fails": fails, "stats": stats})
 			f.Write(append(b, '\n'))
+			if stressHangs >= 5 {
+				break // five deadlocked rounds are reported; each leaves goroutines behind
+			}
 		}
 		return
 	}
@@ -1508,10 +2022,26 @@ func runC17(res *hx.Result, rng *hx.Rng, tier string, outdir string) {
 		if o.NoModel {
 			continue
 		}
-		cf.Add("cases", fmt.Sprintf("{| c_ops := %s; c_end := %d%%N; c_hs := %s; c_sent := %s; c_sclose := %d%%N |}",
-			hx.List(o.Ops), o.End, hx.List(o.Hs), hx.List(o.Sent), o.SClose), o.Desc)
+		cf.Add("cases", fmt.Sprintf("{| c_ops := %s; c_end := %d%%N; c_hs := %s; c_sent := %s; c_wire := %s; c_sclose := %d%%N |}",
+			hx.List(o.Ops), o.End, hx.List(o.Hs), hx.List(o.Sent), wireTerm(o.Wire), o.SClose), o.Desc)
 	}
 	cf.Flush()
+	// every way out of MakeHandler / RemoveHandler / dispatch / closeWith must have been taken by a case that ran
+	// to its end, i.e. was followed by operations that need the handler table (the probe after every operation)
+	var missing []string
+	npaths := 0
+	for _, p := range requiredPaths17() {
+		if res.Distribution["path:"+p] == 0 {
+			missing = append(missing, p)
+		} else {
+			npaths++
+		}
+	}
+	if len(missing) == 0 {
+		res.Notes = append(res.Notes, fmt.Sprintf("return paths: all %d listed ways out of MakeHandler/RemoveHandler/dispatch/closeWith (including the reply to a blocked Call under every write fault) were each followed by operations on the handler table that completed", npaths))
+	} else {
+		res.Notes = append(res.Notes, "return paths NOT reached by a case that ran to its end (expected on a tree where those cases fail): "+strings.Join(missing, ", "))
+	}
 	if tier == "thorough" && len(done) == total {
 		res.Exhaustive = true
 		res.Notes = append(res.Notes, fmt.Sprintf("exhaustive: all %d operation sequences of length <= %d over a %d-letter alphabet compared with the model; all %d sequences of length %d..%d over %d letters run against the property oracles",
@@ -1598,8 +2128,8 @@ func runStress17(res *hx.Result, tier string, outdir string) {
 		res.Fail("process-died", fmt.Sprintf("concurrent stress round %d (seed %d: workers registering/removing handlers, traffic, shutdown) killed the process (%v): %s", begun, res.Seed, werr, tail))
 		next = begun + 1
 	}
-	res.Notes = append(res.Notes, fmt.Sprintf("concurrent stress on net.NewEndPoint: %d rounds, %d handlers (%d registered before the shutdown began, %d closed), %d messages delivered",
-		doneRounds, agg["handlers"], agg["registered-before-shutdown"], agg["closed"], agg["delivered"]))
+	res.Notes = append(res.Notes, fmt.Sprintf("concurrent stress on net.NewEndPoint: %d rounds, %d handlers (%d registered before the shutdown began, %d closed), %d messages delivered, %d Write calls of the endpoint answered with a fault",
+		doneRounds, agg["handlers"], agg["registered-before-shutdown"], agg["closed"], agg["delivered"], agg["faulty-writes"]))
 	res.Distribution["stress:rounds"] = doneRounds
 	res.Distribution["stress:handlers"] = agg["handlers"]
 	if tier == "thorough" {
